@@ -1,7 +1,7 @@
 #!/bin/bash
 # seedrun.sh <patch.diff> <ID> [tier]  — apply a seeded change to /repo, run the check, always undo.
 set -u
-diff="$1"; id="$2"; tier="${3:-quick}"
+diff="$(realpath "$1")"; id="$2"; tier="${3:-quick}"
 cd /repo || exit 2
 if [ -n "$(git status --porcelain --untracked-files=no)" ]; then echo "/repo not clean" >&2; exit 2; fi
 git apply "$diff" || { echo "cannot apply $diff" >&2; exit 2; }
